@@ -166,7 +166,11 @@ func e2eCLI(model map[string]interface{}) (bool, string) {
 		case "missing":
 			writeModule(dir, "")
 		case "latefail":
-			writeModule(dir, strings.Replace(e2eSetup, "\t// SrcToDst copies a Src into a Dst.\n", "\t// SrcToDst copies a Src into a Dst.\n\t// :literal Name \"oops\n", 1))
+			// a dot-imported destination type is spelled "..D2": the generated code does not
+			// parse, so the run fails in the generator stage, after parsing and building
+			writeModule(dir, "//go:build convergen\n\npackage e2e\n\nimport . \"e2e/sub\"\n\ntype Convergen interface {\n\tSrcToD2(*Src) *D2\n}\n")
+			os.MkdirAll(filepath.Join(dir, "sub"), 0755)
+			os.WriteFile(filepath.Join(dir, "sub", "sub.go"), []byte("package sub\n\ntype D2 struct {\n\tID   int\n\tName string\n}\n"), 0644)
 		}
 		var args []string
 		outName := "setup.gen.go"
